@@ -39,7 +39,8 @@ class FrozenA(scen_common.ScenarioWithPc):
         return scen_common.ScenarioWithPc.enabled_filter(self, m, trs)
     def init(self, m):
         scen_common.ScenarioWithPc.init(self, m)
-        m.st.roots['freeze_at'] = m.choose(6, 'freeze A at its n-th RPC (5 = on its timer)')
+        fz = getattr(self, 'fixed_freeze', None)
+        m.st.roots['freeze_at'] = fz if fz is not None else m.choose(6, 'freeze A at its n-th RPC (5 = on its timer)')
         m.st.roots['lc_of'] = {}
     def owner_of_call(self, m, c):
         return m.st.roots['lc_of'].get(c.task)
@@ -113,7 +114,7 @@ def main(tier, seed, args):
     rep = Report(PID, tier, seed, 'model_checking')
     c = ctx('on')
     rep.bounds = {'hashes': 2, 'htlcs_per_hash': 1 if tier == 'quick' else 2, 'freeze_points': 'each of the first 5 RPCs of payment A, or its timer',
-                  'lock_discipline': 'also checked on a single-hash scenario with 2 symbolic HTLCs and 3 concrete HTLCs (extra HTLCs while paying)',
+                  'lock_discipline': 'also checked on a single-hash scenario with 2 symbolic HTLCs, 3 concrete HTLCs (extra HTLCs while paying), and with 1 RPC fault on the fresh and on the restart path',
                   'outside': 'more hashes / HTLCs'}
     rep.assumptions = ['node + tokio contracts', 'a frozen RPC is one the node never answers']
     rep.trusted = ['mirsym', 'z3', 'node model', 'tokio contracts']
@@ -124,15 +125,35 @@ def main(tier, seed, args):
     configs.append(('lock discipline[2 symbolic htlcs]', cfg, pc, [LockDiscipline(), Coverage(['pay'])], {}))
     cfg, pc = cfg_concrete([1006000, 1000, 1000])
     configs.append(('lock discipline[extra htlcs while paying]', cfg, pc, [LockDiscipline(), Coverage(['pay'])], {}))
+    # error paths hold no lock either: restart with a failing wait for the interrupted attempt (retry pause), and a
+    # failing datastore on the fresh path
+    allm = ('datastore', 'listdatastore', 'listsendpays', 'waitsendpay')
+    cfg, pc = cfg_concrete([1006000], store='pending', faults=1, fault_methods=allm, fault_codes=((-1, 'Rpc'), (None, 'General')))
+    configs.append(('lock discipline[restart, 1 rpc fault]', cfg, pc, [LockDiscipline(), Coverage(['fault', 'timer'])], {}))
+    cfg, pc = cfg_concrete([1006000], faults=1, fault_methods=allm, fault_codes=((-1, 'Rpc'), (None, 'General')))
+    configs.append(('lock discipline[fresh, 1 rpc fault]', cfg, pc, [LockDiscipline(), Coverage(['fault'])], {}))
     scen_common.run_configs(rep, PID, c, configs, budget)
     if not rep.violations:
         from .c20 import run_explorer
         cfg, pc = two_hash_cfg()
         sc = FrozenA(c, cfg, [LockDiscipline(), Isolation(), Coverage(['pay', 'response:Resolve'])], pc)
-        sc.sequential = tier == 'quick'
-        name = 'two hashes, A frozen' + (' (B arrives when A is stuck)' if sc.sequential else ' (free interleaving)')
+        sc.sequential = True
+        name = 'two hashes, A frozen (B arrives when A is stuck)'
         ex = run_explorer(rep, c, sc, name, max_states=300000, max_depth=800, time_budget=budget)
         scen_common.report(rep, PID, name, ex, sc)
+        if tier == 'thorough' and not rep.violations:
+            # free interleaving of both payments, one run per freeze point of A (its first five RPCs).  A frozen on its
+            # timer with free interleaving did not finish (207 000 states in 15 min): that combination stays sequential.
+            for fz in range(5):
+                cfg, pc = two_hash_cfg()
+                sc = FrozenA(c, cfg, [LockDiscipline(), Isolation(), Coverage(['response:Resolve'])], pc)
+                sc.sequential = False
+                sc.fixed_freeze = fz
+                name = 'two hashes, A frozen at its RPC #%d (free interleaving)' % fz
+                ex = run_explorer(rep, c, sc, name, max_states=1000000, max_depth=800, time_budget=budget)
+                scen_common.report(rep, PID, name, ex, sc)
+                if rep.violations:
+                    break
     finish(rep, [c], './check C14 --tier ' + tier)
 
 def replay_cex(path):
